@@ -365,25 +365,25 @@ func init() {
 		Name: "keyed-history", Props: []string{"C06"}, QuickOnly: true, Det: true, Manual: true, NoRace: true, ObsNames: ops,
 		Doc:   "Keyed: every sequence of 5 operations over {SetKey(a|b,start f|t), RemoveKey(a|b), SyncKeys({},{a},{b},{a,b},{a,a,b}+restart), FireEarliestTimer} x release delay {0,d} x context {unset,set} x routine script {blocks, returns nil, returns error}; after every operation GetKeys/GetKey/GetKeysWithData and the call's results are compared with a reference model; finally every armed delay expires",
 		Quick: eng.Bounds{PB: 0, Cap: 8000000}, Thorough: eng.Bounds{PB: 0},
-		Body:  keyedHistory(5),
+		Body: keyedHistory(5),
 	})
 	eng.Register(&eng.Scenario{
 		Name: "keyed-history-deep", Props: []string{"C06"}, ThoroughOnly: true, Det: true, Manual: true, NoRace: true, ObsNames: ops,
 		Doc:   "Keyed: as keyed-history with sequences of 6 operations (thorough tier)",
 		Quick: eng.Bounds{PB: 0}, Thorough: eng.Bounds{PB: 0, Cap: 200000000},
-		Body:  keyedHistory(6),
+		Body: keyedHistory(6),
 	})
 	eng.Register(&eng.Scenario{
 		Name: "keyedref-history", Props: []string{"C06"}, QuickOnly: true, Det: true, Manual: true, NoRace: true, ObsNames: ops,
 		Doc:   "KeyedRefCount: every sequence of 6 operations over {AddKeyRef(a|b), Release(ref 0|1|2) (repeatable), RemoveKey(a|b), FireEarliestTimer} x delay x context x script, compared with a reference model (reference multiset + key set)",
 		Quick: eng.Bounds{PB: 0, Cap: 8000000}, Thorough: eng.Bounds{PB: 0},
-		Body:  keyedRefHistory(6),
+		Body: keyedRefHistory(6),
 	})
 	eng.Register(&eng.Scenario{
 		Name: "keyedref-history-deep", Props: []string{"C06"}, ThoroughOnly: true, Det: true, Manual: true, NoRace: true, ObsNames: ops,
 		Doc:   "KeyedRefCount: sequences of 7 operations (thorough tier)",
 		Quick: eng.Bounds{PB: 0}, Thorough: eng.Bounds{PB: 0, Cap: 200000000},
-		Body:  keyedRefHistory(7),
+		Body: keyedRefHistory(7),
 	})
 	bg := context.Background()
 	eng.Register(&eng.Scenario{
